@@ -193,7 +193,12 @@ def run(tier):
                      "nsweep": 3, "grad": 0, "meta": {"shape": sh, "d": d, "medium": "homog", "src": src, "cls": "interior",
                                                       "targeted": "aniso3d"}})
     for sh, src in [((11, 11, 11), (5.0, 5.0, 5.0)), ((11, 11, 11), (5.3, 4.6, 5.5)), ((9, 12, 10), (6.2, 3.4, 7.7)),
-                    ((15, 15), (7.4, 6.7)), ((15, 15), (7.0, 7.0))]:
+                    ((15, 15), (7.4, 6.7)), ((15, 15), (7.0, 7.0)),
+                    # shallow / near-boundary sources, off the grid lines, inside the first or last row of cells along one
+                    # axis (a sign recorded by the source-row/column initialisation then indexes a neighbour across the edge)
+                    ((15, 15), (0.4, 6.3)), ((15, 15), (6.3, 0.4)), ((15, 15), (14.6, 6.3)), ((15, 15), (6.3, 14.6)),
+                    ((11, 11, 11), (0.4, 5.3, 4.6)), ((11, 11, 11), (5.3, 0.4, 4.6)), ((11, 11, 11), (5.3, 4.6, 0.4)),
+                    ((11, 11, 11), (10.6, 5.3, 4.6)), ((11, 11, 11), (5.3, 4.6, 10.6))]:
         nd_ = len(sh)
         t = {"slow": np.full(sh, 0.5), "dz": 1.0, "dx": 1.0, "zs": src[0], "xs": src[1], "nsweep": 3, "grad": 0,
              "meta": {"shape": sh, "d": (1.0,) * nd_, "medium": "homog", "src": src, "cls": "interior", "targeted": "radial"}}
